@@ -13,6 +13,7 @@ end-to-end too; likewise for the incremental factory (IncrementalCsrGraphFactory
 import Hpv.GraphModelProofs
 import Hpv.BuilderFactoryProofs
 import Hpv.IncrementalFactoryProofs
+import Hpv.SourceProofs
 
 namespace Hpv.Props.C01
 open Hpv.Graph Hpv.Csr Hpv.Indexed Hpv.GM
@@ -179,6 +180,22 @@ theorem incremental_factory_exact (hs : o.Strict) (hroot : findRoot owl (dedup E
   obtain ⟨ha, hd⟩ := hrep.closure hs v hv
   exact ⟨hp, hc, ha, hd⟩
 
+/-- **`include_source` on the two matrix-backed factories**: on every acyclic rooted edge list, for all four queries,
+asking to include the source adds the source itself, exactly once, and nothing else. -/
+theorem matrix_factories_include_source (hs : o.Strict) (hroot : findRoot owl (dedup E) = .ok (root, E'))
+    (hacyc : ∀ x, ¬ Relation.TransGen (IsA E') x x) :
+    ∃ gi gb, buildIncremental o owl E = .ok gi ∧ buildBuilder o owl E = .ok gb ∧
+      ∀ (mg : MGraph κ), (mg = gi ∨ mg = gb) → ∀ (q : Q) (v : κ), v ∈ mg.nodes →
+        ∃ res res', mg.query o q (some v) false = .ok res ∧ mg.query o q (some v) true = .ok res' ∧
+          res'.Nodup ∧ ∀ x, x ∈ res' ↔ x = v ∨ x ∈ res := by
+  obtain ⟨hloop, h2⟩ := acyclic_simple hacyc
+  obtain ⟨gi, hgi, _, _, hrepi⟩ := incremental_represents hs hroot hloop h2
+  obtain ⟨gb, hgb, _, _, hrepb⟩ := builder_represents hs hroot hloop h2
+  refine ⟨gi, gb, hgi, hgb, ?_⟩
+  rintro mg (rfl | rfl) q v hv
+  · exact hrepi.include_source hs hloop q v hv
+  · exact hrepb.include_source hs hloop q v hv
+
 end Hpv.Props.C01
 
 /-! ### non-vacuity: the hypotheses are met by concrete graphs (keys `Nat` under `<`, `owl:Thing` = 0) -/
@@ -234,5 +251,9 @@ example : (match buildBuilder natOrd 0 diamond with
 example : (match buildIncremental natOrd 0 diamond with
     | .ok g => g.query natOrd .descendants (some 9) false
     | .error e => .error e) = .ok [2, 3, 1] := by rfl
+
+example : (match buildIncremental natOrd 0 diamond with
+    | .ok g => g.query natOrd .ancestors (some 1) true
+    | .error e => .error e) = .ok [1, 2, 3, 9] := by rfl
 
 end Hpv.Props.C01.Example
